@@ -277,21 +277,32 @@ impl CondModel {
             all.push(Act::Endif);
         }
         let nall = all.len();
-        // labels in front of directive lines that belong to no unselected arm (the directives of a
-        // conditional whose surroundings are assembled) are defined: name and word address
+        // labels in front of directive lines. Where the label is assembled beyond doubt (in front
+        // of an `.if` / `.exit` that stands in assembled text) it is defined: name and word address.
+        // Where it is skipped beyond doubt (the directive is itself part of skipped text: nested in
+        // an unselected arm, or behind an assembled .exit) it defines nothing: the same name is
+        // defined once more at the end. A label in front of the .elif / .else / .endif of a live
+        // conditional is neither: `lbl: .endif` can be read as the last line of the arm it ends
+        // or as part of the directive line; the statement does not say, and no reading is demanded.
         let mut live_labels: Vec<(String, usize)> = vec![];
+        let mut dead_labels: Vec<String> = vec![];
         for (i, a) in all.iter().enumerate() {
             let hash = i % 3 == 1;
             {
                 let dsalt = salt / 7 + i;
-                let live_line = !s.exited
-                    && match a {
+                if dsalt % 9 >= 7 {
+                    let surroundings_assembled = match a {
                         Act::If(..) | Act::Exit => assembling(&s),
-                        _ => s.stack.last().map(|f| f.parent).unwrap_or(false),
+                        _ => !s.exited && s.stack.last().map(|f| f.parent).unwrap_or(false),
                     };
-                if live_line && dsalt % 9 >= 7 {
-                    live_labels.push((format!("dl_{}", dsalt), code.len() / 2));
-                    flattened.push_str(&format!("dl_{}:\n", dsalt));
+                    if surroundings_assembled {
+                        if matches!(a, Act::If(..) | Act::Exit) {
+                            live_labels.push((format!("dl_{}", dsalt), code.len() / 2));
+                            flattened.push_str(&format!("dl_{}:\n", dsalt));
+                        }
+                    } else {
+                        dead_labels.push(format!("dl_{}", dsalt));
+                    }
                 }
             }
             match a {
@@ -373,13 +384,18 @@ impl CondModel {
         if density != 0 {
             features.insert("adjacent-directives");
         }
-        if !s.exited && !live_labels.is_empty() {
+        if !s.exited && (!live_labels.is_empty() || !dead_labels.is_empty()) {
             features.insert("label-on-directive-line");
             for (name, addr) in &live_labels {
                 let l = format!(".dw {}\n", name);
                 program.push_str(&l);
                 flattened.push_str(&l);
                 code.extend([(*addr & 0xff) as u8, (*addr >> 8) as u8]);
+            }
+            for name in &dead_labels {
+                let l = format!("{}:\n", name);
+                program.push_str(&l);
+                flattened.push_str(&l);
             }
         }
         Rendered { program, flattened, code, markers, features, cut: (cut_a, cut_b) }
